@@ -85,6 +85,7 @@ func (in *Interp) runHarnessOnce(name string) (status PathStatus, msg string) {
 	}
 	in.timeNondet = spec.TimeND
 	in.randNondet = spec.RandND
+	in.chanOnly = spec.Sched == "chan"
 	defer func() {
 		r := recover()
 		if r != nil {
